@@ -11,7 +11,7 @@
                     property is violated by the code: null_timespan_bound_refuted) *)
 From Coq Require Import ZArith List Bool String Lia.
 From V Require Import Base.Tri Gen.TimespanGen Model.Pred Gen.PredGen Model.Expr Model.SqlExpr
-  Model.ExprLegacy Proofs.ExprProofsA Proofs.ExprProofsB Proofs.ExprProofsC Proofs.ExprProofsL Proofs.ExprProofsM.
+  Model.ExprLegacy Proofs.ExprProofsA Proofs.ExprProofsB Proofs.ExprProofsC Proofs.ExprProofsL Proofs.ExprProofsM Proofs.ExprProofsN.
 Import ListNotations.
 Open Scope Z_scope.
 
@@ -251,6 +251,13 @@ Theorem legacy_refuses_negated_operand : forall o a b,
 Proof. exact lsql_neg_cmp. Qed.
 Print Assumptions legacy_refuses_negated_operand.
 
+(* ... and conversely every documented-well-typed expression WITHOUT NULL comparisons, NULL items, unary minus, `%`,
+   `.begin`, `.end` (lplain) passes the converter: on well-typed input those are its only refusals *)
+Theorem legacy_accepts_plain : forall e,
+  typeof e = Some DBool -> no_null_cmp e = true -> lplain e = true -> lsql e <> None.
+Proof. exact lsql_accepts_p. Qed.
+Print Assumptions legacy_accepts_plain.
+
 (* the strided range test of lsst.daf.relation (= the pre-d6d8862 test) is right exactly under the stride guard *)
 Theorem legacy_range_correct : forall rho m x a b s, 1 <= s -> seval rho m = Some (VInt x) ->
   (s = 1 \/ a = b \/ 0 <= x) ->
@@ -327,3 +334,6 @@ Example legacy_agrees_nonvacuous :
   match lcompile (fun c => N.eqb c 0) (fun _ => true) 0%N [VStr "Cam"] e_lex with
   | Some q => keeps rho_lex q = true | None => False end.
 Proof. exact legacy_agrees_example_p. Qed.
+
+Example legacy_accepts_plain_nonvacuous : typeof e_lex = Some DBool /\ no_null_cmp e_lex = true /\ lplain e_lex = true.
+Proof. vm_compute. repeat split; reflexivity. Qed.
